@@ -707,3 +707,33 @@ package actor
 //@   invariant -1 <= rangeindex && rangeindex < len(targets)
 //@   invariant gcount(consulted, 0) == old(gcount(consulted, 0)) + 1 && arr(targets) == tarr && len(targets) == tlen && decision == dec
 //@   invariant refsNonNil(targets)
+
+// ---------------------------------------------------------------------------------------------
+// C02: the stash is a FIFO of envelopes. Stash appends the current envelope; Unstash hands the OLDEST ones back to
+// the actor's own mailbox - in the order they were stashed, each exactly once (the k-th Enqueue of the call gets
+// the k-th stashed envelope) - and drops exactly those from the stash; the rest keep their order.
+//@ func (*Context).Stash
+//@   modifies c.stash
+//@   ensures  len(c.stash) == old(len(c.stash)) + 1 && c.stash[len(c.stash) - 1] == c.envelop
+//@   ensures  forall i mathint :: 0 <= i && i < old(len(c.stash)) ==> c.stash[i] == old(c.stash[i])
+//@ func (*Context).StashCount
+//@   ensures result == len(c.stash)
+//@ func (*Context).Unstash
+//@   callspec Enqueue requires gcount(enqn, 0) - old(gcount(enqn, 0)) < old(len(c.stash)) && arg0 == old(c.stash)[gcount(enqn, 0) - old(gcount(enqn, 0))] && recv == c.mailbox
+//@   requires c.mailbox != nil && forall i mathint :: 0 <= i && i < len(c.stash) ==> c.stash[i] != nil
+//@   modifies c.stash, gmap(enqn)
+//@   ensures  len(num) == 0 ==> gcount(enqn, 0) == old(gcount(enqn, 0)) + (old(len(c.stash)) > 0 ? 1 : 0)
+//@   ensures  len(num) > 0 ==> gcount(enqn, 0) == old(gcount(enqn, 0)) + max(min(num[0], old(len(c.stash))), 0)
+//@   ensures  len(c.stash) == old(len(c.stash)) - (gcount(enqn, 0) - old(gcount(enqn, 0)))
+//@   ensures  forall i mathint :: 0 <= i && i < len(c.stash) ==> c.stash[i] == old(c.stash)[i + (gcount(enqn, 0) - old(gcount(enqn, 0)))]
+//@ loop (*Context).Unstash#1
+//@   modifies gmap(enqn)
+//@   invariant 0 <= i && i <= popCount && gcount(enqn, 0) == old(gcount(enqn, 0)) + i && c.stash == old(c.stash) && popCount <= stashCount && stashCount == len(c.stash)
+
+// Kill: an immediate kill is a SYSTEM message (it overtakes queued user mail), a poison kill a USER message (it is
+// processed after the user mail queued before it); exactly one OnKill, to the target, nothing else
+//@ func (*Context).Kill
+//@   requires ref != nil
+//@   modifies gmap(told), gmap(toldn), gmap(tells)
+//@   ensures  gcount(told, ref, kKill(!poison)) == old(gcount(told, ref, kKill(!poison))) + 1
+//@   ensures  forall r vivid.ActorRef, k mathint :: (r != ref || k != kKill(!poison)) ==> gcount(told, r, k) == old(gcount(told, r, k))
